@@ -236,6 +236,9 @@ type c08PFDReq struct {
 func c08PFDReqs() []c08PFDReq {
 	t1 := map[string][]string{"app1": {"permit out udp from 10.1.0.0/16 80 to assigned", "permit in tcp from 10.2.0.0/16 443 to assigned"}, "app2": {"permit out ip from 10.3.0.0/16 to assigned"}}
 	t2 := map[string][]string{"app1": {"permit in 17 from 10.5.5.5 53 to assigned", "permit out tcp from 10.6.0.0/24 to assigned"}}
+	// the other direction's description names a protocol and comes first, the PDR direction's says "ip"; an application
+	// provisioned for one direction only
+	t3 := map[string][]string{"app1": {"permit in tcp from 10.2.0.0/16 443 to assigned", "permit out ip from 10.7.0.0/16 to assigned"}, "app2": {"permit in udp from 10.4.0.0/16 53 to assigned"}}
 	mk := func(t map[string][]string) []sPFD {
 		var out []sPFD
 		for _, a := range []string{"app1", "app2"} {
@@ -248,6 +251,7 @@ func c08PFDReqs() []c08PFDReq {
 	return []c08PFDReq{
 		{"T1", sReq{Kind: kPFD, PFDs: mk(t1)}, true, t1},
 		{"T2", sReq{Kind: kPFD, PFDs: mk(t2)}, true, t2},
+		{"T3", sReq{Kind: kPFD, PFDs: mk(t3)}, true, t3},
 		{"bad-noflow-app1", sReq{Kind: kPFD, PFDs: []sPFD{{App: "app2", Flows: []string{"permit out ip from 10.9.0.0/16 to assigned"}}, {App: "app1", Bad: "noflow"}}}, false, nil},
 		{"bad-noflow-app3", sReq{Kind: kPFD, PFDs: []sPFD{{App: "app3", Flows: []string{"permit out ip from 10.9.0.0/16 to assigned"}, Bad: "noflow"}}}, false, nil},
 		{"bad-noctx-app2", sReq{Kind: kPFD, PFDs: []sPFD{{App: "app1", Flows: []string{"permit out ip from 10.8.0.0/16 to assigned"}}, {App: "app2", Bad: "noctx"}}}, false, nil},
@@ -340,7 +344,7 @@ func TestVerifC08(t *testing.T) {
 	defer res.write(t)
 	res.Rule = "grammar expanded completely over action {permit,deny} x direction {in,out} x protocol {ip,tcp,udp,6,17,1,0,255} x remote {any, host, /32, /31, /24, /8, /1, /0} x port {absent, p, p-p, lo-hi, 65535, 0-65535, 1, 65530-65535, 0-5} x both " +
 		"endpoint orders (+ UE-side ports / no assigned side: crash-freedom only), each string inline in a Create PDR for both PDR directions and UE address present/absent; every token-level corruption (delete, duplicate, " +
-		"truncate after, replace by 12 junk tokens) of a stratified subset of descriptions (thorough: of all); every sequence of <= 3 PFD Management requests over {T1, T2, empty, three rejected forms} followed by PDRs naming " +
+		"truncate after, replace by 12 junk tokens) of a stratified subset of descriptions (thorough: of all); every sequence of <= 3 PFD Management requests over {T1, T2, T3, empty, three rejected forms} followed by PDRs naming " +
 		"app1/app2/app3 in both directions. distinct_nontrivial = strict grammar cases + PFD cases compared at the fake BESS"
 	res.Assumptions = []string{"reference denotation of DESIGN.md appendix A.1: the remote endpoint is the one that is not 'assigned'; oriented by the PDR's direction",
 		"ports wider than 100 are left to C17 (the Exact strategy refuses them after acceptance); protocol 0/255, port 0, UE-side ports: generated, crash-freedom only"}
